@@ -185,6 +185,54 @@ def run_fit(ctx, rng, idx):
                       'mapping %s vs %s' % (m.mapping_.to_original, exp_map))
     if m.n_states_ != densify(eT).shape[0]:
         ctx.violation('msm.n_states', '%s' % m.n_states_)
+    # ---- the constructor's parameters are not rewritten by fit, and a
+    # second fit of the same object is a fresh fit ----------------------------
+    if (m.lag_time, m.trim, m.sliding_window, m.max_n_states) != (
+            lag, trim, sliding, mns):
+        ctx.violation('msm.fit.rewrites-parameter',
+                      'after fit: lag_time=%r trim=%r sliding_window=%r '
+                      'max_n_states=%r (constructed with %r %r %r %r)' % (
+                          m.lag_time, m.trim, m.sliding_window,
+                          m.max_n_states, lag, trim, sliding, mns))
+    if idx % 3 == 0 and bname != 'mle':
+        trajs2, _ = gen_assigns(rng, small=False)
+        a2 = R([t.copy() for t in trajs2])
+        try:
+            with warnings.catch_warnings():
+                warnings.simplefilter('ignore')
+                C2 = tm.assigns_to_counts(a2, lag_time=lag, max_n_states=mns,
+                                          sliding_window=sliding)
+                if trim:
+                    _, C2 = tm.trim_disconnected(C2)
+                ok2 = C2.sum() > 0 and (bname == 'normalize' or (
+                    mc.is_strongly_connected(densify(C2)) and not np.any(
+                        densify(C2).sum(axis=1) == 0)))
+                if ok2:
+                    e2C, e2T, e2p = getattr(builders, bname)(C2)
+                    m.fit(a2)
+                    ctx.count('refits_checked')
+                    if densify(m.tcounts_).shape != densify(e2C).shape or \
+                            not np.array_equal(densify(m.tcounts_),
+                                               densify(e2C)) or \
+                            not np.array_equal(densify(m.tprobs_),
+                                               densify(e2T)):
+                        ctx.violation(
+                            'msm.refit.differs-from-pipeline',
+                            'second fit of the same estimator (%d states '
+                            'after %d) differs from the function pipeline '
+                            'on the second data set' % (
+                                densify(e2C).shape[0], densify(eC).shape[0]))
+        except Exception as e:  # noqa
+            if mns is None or int(a2.max()) < mns:
+                ctx.violation('msm.refit.raised', '%s: %s' % (
+                    type(e).__name__, str(e)[:200]))
+        # refit on the first data set again for the round trip below
+        try:
+            with warnings.catch_warnings():
+                warnings.simplefilter('ignore')
+                m.fit(a)
+        except Exception:  # noqa
+            return
     # ---- save / load round trip ------------------------------------------
     tmp = tempfile.mkdtemp(prefix='vf-c16-', dir=os.environ.get('VF_RUNDIR'))
     try:
